@@ -64,8 +64,9 @@ pub struct ScriptTemplate(Vec<MatchToken>);
 
 impl ScriptTemplate {
     fn map_string_to_match_token(code: &str) -> Result<MatchToken, ScriptTemplateErrors> {
-        // Number OP_CODES
-        if code.len() < 3 {
+        // Number OP_CODES: exactly the aliases "0".."16" that Script::from_asm_string knows.
+        // Anything else that looks numeric ("00", "07", "+5") is hex data, as it is for scripts.
+        if code.len() < 3 && !code.starts_with('+') && (code == "0" || !code.starts_with('0')) {
             if let Ok(num_code) = u8::from_str(code) {
                 match num_code {
                     0 => return Ok(MatchToken::OpCode(OP_0)),
@@ -133,7 +134,7 @@ impl ScriptTemplate {
     }
 
     pub fn from_asm_string_impl(asm: &str) -> Result<ScriptTemplate, ScriptTemplateErrors> {
-        let tokens: Result<Vec<_>, _> = asm.split(' ').map(ScriptTemplate::map_string_to_match_token).collect();
+        let tokens: Result<Vec<_>, _> = asm.split_whitespace().map(ScriptTemplate::map_string_to_match_token).collect();
 
         Ok(ScriptTemplate(tokens?))
     }
